@@ -100,8 +100,9 @@ def main(path):
                         exe = build.tool_heapbuf("sanx", t)
                         args = r["args"] if r.get("args") is not None and r.get("tool") else (["-l"] if t == "ovniemu" else [])
                         corrupt.write_files(td, files)
-                        rc, out, err = emusrv.run_tool(exe, list(args) + [td], timeout=10,
-                                                       env_extra={"ASAN_OPTIONS": "detect_leaks=0:abort_on_error=1:allocator_may_return_null=1"})
+                        envx = {"ASAN_OPTIONS": "detect_leaks=0:abort_on_error=1:allocator_may_return_null=1"}
+                        envx.update(a[4:].split("=", 1) for a in args if a.startswith("ENV:"))
+                        rc, out, err = emusrv.run_tool(exe, [a for a in args if not a.startswith("ENV:")] + [td], timeout=10, env_extra=envx)
                         print(t, "exit", rc, "|", err[-400:].replace("\n", " / "))
                     return 0
             print("corruption label not found (grammar cases are not replayable by label)")
